@@ -183,7 +183,7 @@ PROPS["C20"] = {
     "rule": "one real run per process through Cucumber::custom(..).init_tracing().run() (global subscriber) polled by the gate scheduler; every before hook / step / after hook emits 0-4 `tracing::info!` lines with unique ids before and after its gates; 1-10 scenarios, limits 2/3/64/unlimited, retries; the raw event stream is checked for: each id delivered exactly once, as a Log of the emitting scenario attempt, after the Started and before the result event of the emitting step / hook, none missing at run-Finished; non-trivial = >=2 scenarios in flight both logging; distinct by schedule hash",
     "floor": {"quick": 100, "thorough": 1000},
     "assumptions": ["with the `tracing` feature the runner busy-yields while scenarios run, so a quiescent point is 4 consecutive self-woken polls without any event, callback step or parser pull",
-                    "both hooks are always set in this workload (the Cucumber facade type is fixed); World::new emits no logs",
+                    "World::new emits no logs",
                     "Miri cannot run this workload (dependency UB report in crossbeam AtomicCell<Box<_>>, see DESIGN.md)"],
     "technique": "runtime monitoring: trace oracle over the recorded raw event stream of real runs with the tracing integration enabled",
 }
